@@ -5,8 +5,9 @@
     excluded kind is named here:
       - Deque / Anything / NoneField / non-String map keys / non-scalar enum literals: the mapping raises;
       - `multiplesOf = 0`;
-      - OneOf / AllOf / NotField (need the exactness direction), untyped Set, `uniqueItems` on
-        non-scalar or positional items, AnyOf over non-scalar options: corresponded only.
+      - OneOf / AllOf / NotField (need the exactness direction), AnyOf over non-scalar options:
+        corresponded only.
+    Set and `uniqueItems` are inside, under the region's explicit hypothesis `distinctImages`.
   * `regF` / `inAdmitRegion`: (declaration, value)-level region: the value is deeply well-formed and
     outside the known-finding regions (bool stored in a numeric / enum field, value inside the gap
     of a sign-only float bound, required or defaulted
@@ -51,13 +52,13 @@ def fragF : FieldDecl → Bool
   | .boolean => true
   | .enumLit vs => !vs.isEmpty && vs.all enumValOk && jsonNodup vs
   | .enumCls _ names => !names.isEmpty && nodupS names
-  | .seqAny k sz => k == .list && !sz.uniq
-  | .seqOf k f sz => k == .list && fragF f && !sz.uniq
-  | .seqPos k fs _ sz => k == .list && !fs.isEmpty && fragL fs && !sz.uniq
-  | .setAny _ _ => false
-  | .setOf _ _ _ => false
-  | .tupleOf f u => fragF f && !u
-  | .tuplePos fs u => !fs.isEmpty && fragL fs && !u
+  | .seqAny k _ => k == .list
+  | .seqOf k f _ => k == .list && fragF f
+  | .seqPos k fs _ _ => k == .list && !fs.isEmpty && fragL fs
+  | .setAny _ _ => true
+  | .setOf _ f _ => fragF f
+  | .tupleOf f _ => fragF f
+  | .tuplePos fs _ => !fs.isEmpty && fragL fs
   | .mapAny _ => true
   | .mapOf k v _ => isStringField k && fragF v
   | .struct _ fields defaults =>
@@ -112,6 +113,15 @@ def signGap (o : NumOpts) (v : PyVal) : Bool :=
     (o.min.isNone && o.sign == .pos && Q.lt q tiny) || (o.max.isNone && o.sign == .neg && Q.lt negTiny q)
   | none => false
 
+/-- the hypothesis under which `uniqueItems` (always present for a Set) can be promised: the JSON
+    images of the elements are pairwise distinct as JSON values.  Python-distinct elements can have
+    one image (`(1, 2)` and `[1, 2]`, `1` and `1.0` in an untyped position): finding
+    `admits:uniqueItems` -/
+def distinctImages (r : R (List PyVal)) : Bool :=
+  match r with
+  | .ok ys => jsonNodup ys
+  | .error _ => true
+
 def attrPresent (attrs : List (String × PyVal)) (r : String) : Bool :=
   match lookup r attrs with
   | some v => !v.isNone
@@ -126,17 +136,27 @@ def regF (O : Oracles) : FieldDecl → PyVal → Bool
   | .boolean, _ => true
   | .enumLit vs, v => jsonMem v vs
   | .enumCls _ _, _ => true
-  | .seqAny _ _, _ => true
-  | .seqOf _ f _, v => (match seqLike v with | some xs => xs.all (regF O f) | none => false)
-  | .seqPos _ fs _ _, v => (match seqLike v with | some xs => regZip O fs xs | none => false)
-  | .setAny _ _, _ => false
+  | .seqAny _ sz, v => (match seqLike v with
+    | some xs => !sz.uniq || distinctImages (serAnyList xs)
+    | none => false)
+  | .seqOf _ f sz, v => (match seqLike v with
+    | some xs => xs.all (regF O f) && (!sz.uniq || distinctImages (mapE (ser O f) xs))
+    | none => false)
+  | .seqPos _ fs _ sz, v => (match seqLike v with
+    | some xs => regZip O fs xs && (!sz.uniq || distinctImages (serZip O fs xs))
+    | none => false)
+  | .setAny _ _, v => (match v with
+    | .set _ xs => distinctImages (serAnyList xs)
+    | _ => false)
   | .setOf _ f _, v => (match v with
-    | .set _ xs => PyVal.pyNodup xs && xs.all (regF O f)
+    | .set _ xs => xs.all (regF O f) && distinctImages (mapE (ser O f) xs)
     | _ => false)
-  | .tupleOf f _, v => (match v with
-    | .tuple xs => xs.all (regF O f)
+  | .tupleOf f u, v => (match v with
+    | .tuple xs => xs.all (regF O f) && (!u || distinctImages (mapE (ser O f) xs))
     | _ => false)
-  | .tuplePos fs _, v => (match v with | .tuple xs => regZip O fs xs | _ => false)
+  | .tuplePos fs u, v => (match v with
+    | .tuple xs => regZip O fs xs && (!u || distinctImages (serZip O fs xs))
+    | _ => false)
   | .mapAny _, _ => true
   | .mapOf _ vf _, v => (match v with | .dict kvs => kvs.all (fun kv => regF O vf kv.2) | _ => false)
   | .struct c fields defaults, v => (match v with
